@@ -152,6 +152,65 @@ func countIEs(pdu interface{}) int {
 	return ies.FieldByName("List").Len()
 }
 
+// repeatIEs: the top-level information elements of a message (valid or already made hostile in one place) written
+// r times over, with the IE count and the message length adjusted, so that whatever one hostile IE costs the decoder is
+// asked for again and again inside one datagram of at most maxLen octets. Returns false if b is not framed as
+// <choice><procedure code><criticality><length><0x00><IE count><IEs...> with one-/two-octet lengths.
+func repeatIEs(b []byte, maxLen int) ([]byte, bool) {
+	if len(b) < 8 {
+		return nil, false
+	}
+	pos := 3
+	rdLen := func() (int, bool) {
+		if pos >= len(b) {
+			return 0, false
+		}
+		if b[pos]&0x80 == 0 {
+			pos++
+			return int(b[pos-1]), true
+		}
+		if b[pos]&0x40 != 0 || pos+1 >= len(b) {
+			return 0, false
+		}
+		n := int(b[pos]&0x3f)<<8 | int(b[pos+1])
+		pos += 2
+		return n, true
+	}
+	total, ok := rdLen()
+	if !ok || pos+total > len(b) || total < 3 {
+		return nil, false
+	}
+	body := b[pos : pos+total]
+	if body[0]&0x7f != 0 && body[0] != 0 {
+		// (extension bit and padding of the message SEQUENCE)
+	}
+	n := int(body[1])<<8 | int(body[2])
+	ies := body[3:]
+	if n == 0 || len(ies) == 0 {
+		return nil, false
+	}
+	r := (maxLen - 16) / len(ies)
+	if n*r > 65535 {
+		r = 65535 / n
+	}
+	if r < 2 {
+		return nil, false
+	}
+	nb := []byte{body[0], byte((n * r) >> 8), byte(n * r)}
+	for i := 0; i < r; i++ {
+		nb = append(nb, ies...)
+	}
+	out := append([]byte{}, b[:3]...)
+	if len(nb) < 128 {
+		out = append(out, byte(len(nb)))
+	} else if len(nb) < 16384 {
+		out = append(out, 0x80|byte(len(nb)>>8), byte(len(nb)))
+	} else {
+		return nil, false
+	}
+	return append(out, nb...), true
+}
+
 func genC14(t *rapid.T) c14Case {
 	switch rapid.IntRange(0, 9).Draw(t, "kind") {
 	case 0:
@@ -205,6 +264,12 @@ func genC14(t *rapid.T) c14Case {
 		}
 		c.Kind = "structured-fault"
 		c.Fault = hit
+		if rapid.IntRange(0, 3).Draw(t, "repeat") == 0 {
+			if rb, ok := repeatIEs(hb, 4096); ok {
+				hb = rb
+				c.Kind = "structured-fault-repeated"
+			}
+		}
 		if rapid.IntRange(0, 4).Draw(t, "also") == 0 {
 			c.Edits = gen.Mutation(t, len(hb), 2)
 			hb = gen.Apply(hb, c.Edits)
@@ -232,7 +297,7 @@ func TestC14_Total(t *testing.T) {
 			panic(err)
 		}
 		v := ev.Verdict{Classes: []string{"kind:" + c.Kind}, Hash: ev.HashBytes(b)}
-		if (c.Kind == "prefix" || c.Kind == "mutated" || c.Kind == "structured-fault") && c.nIEs >= 3 {
+		if (c.Kind == "prefix" || c.Kind == "mutated" || c.Kind == "structured-fault" || c.Kind == "structured-fault-repeated") && c.nIEs >= 3 {
 			v.NT = true
 		}
 		if c.Fault != "" {
@@ -349,6 +414,20 @@ func TestC14_Structural(t *testing.T) {
 					}
 					if !r.Each(t, c, v) {
 						return
+					}
+					if variant == 1 && (f == "len" || f == "num") {
+						// the same hostile element as often as a 4 KiB datagram holds it
+						if rb, ok := repeatIEs(hb, 4096); ok {
+							c := c14Case{Kind: "structured-fault-repeated", Entry: "PDU/" + m.Name, Fault: hit, Hex: hex.EncodeToString(rb)}
+							v := ev.Verdict{NT: true, Hash: ev.HashBytes(rb), Classes: []string{"sweep-fault-repeated:" + f}}
+							v.Key, v.Err = decodeTotal(r, c, rb)
+							if v.Key != "" {
+								v.Key = "dec:" + v.Key
+							}
+							if !r.Each(t, c, v) {
+								return
+							}
+						}
 					}
 				}
 			}
